@@ -6,7 +6,7 @@ from hypothesis import strategies as st
 
 from pv.cmp import to_np
 from pv.engine import Reject, Result, Viol
-from pv.ref import fd, hybrid
+from pv.ref import fd, fresh, hybrid
 
 ID = "C34"
 TECHNIQUE = ("hypothesis-generated hybrid programs (classical pre-processing + circuit) x differentiation configurations; "
@@ -78,14 +78,14 @@ def _program(draw, tier):
     n = draw(st.sampled_from([1, 2, 2, 2, 3, 3, 3, 4] if tier == "thorough" else [1, 2, 2, 2, 3, 3, 3, 3, 4]))
     labels = draw(st.sampled_from([list(range(6)), list(range(6)), ["a", "b", "c", "d", "e", "f"], [3, "x", 0, "q1", 7, 2]]))
     wires = labels[:n]
-    nargs = draw(st.integers(1, 3))
+    nargs = draw(st.sampled_from([1, 2, 2, 3]))
     batch_arg = draw(st.sampled_from([None, None, None, None, 0]))
     args = []
     for a in range(nargs):
         if a == batch_arg:
             shape = [draw(st.sampled_from([1, 2, 3]))]
         else:
-            shape = draw(st.sampled_from([[], [], [2], [3]]))
+            shape = draw(st.sampled_from([[], [], [2], [3]] if nargs > 1 else [[2], [3], [2], []]))
         args.append({"shape": shape, "val": [draw(_val) for _ in range(shape[0] if shape else 1)]})
     leaves = []
     for a, spec in enumerate(args):
@@ -229,6 +229,7 @@ _REJECT_PATTERNS = [
     ("NotImplementedError", "does not support multiple measurements"),
     ("ValueError", "Centered finite-difference requires an even order approximation"),
     ("WireError", "no free wire for the auxiliary wire"),
+    ("TypeError", "can't apply forward-mode autodiff (jvp) to a custom_vjp function"),  # jax.jacfwd with device_vjp=True
 ]
 
 
@@ -238,7 +239,26 @@ def _documented_rejection(e):
     for n, pat in _REJECT_PATTERNS:
         if n == name and pat in msg:
             return pat
+    if name in ("XlaRuntimeError", "JaxRuntimeError") and "CpuCallback error" in msg:
+        # under jax.jit the gradient transform runs inside a host callback; its exception text is embedded
+        for n, pat in _REJECT_PATTERNS:
+            if f"{n}: " in msg and pat in msg:
+                return pat
     return None
+
+
+def _setup_frameworks(iface):
+    """Keep every computation on the calling thread (no asynchronous dispatch while the next case is being built)."""
+    if iface in ("jax", "jax-jit"):
+        import jax
+        try:
+            jax.config.update("jax_cpu_enable_async_dispatch", False)
+        except Exception:  # noqa: BLE001
+            pass
+    if iface == "torch":
+        import torch
+        if torch.get_num_threads() != 1:
+            torch.set_num_threads(1)
 
 
 def _to_iface(v, iface):
@@ -423,6 +443,7 @@ def check(spec):
     sig = f"{m}{':' + cfg['mode'] if m == 'hadamard' else ''}:{cfg['iface']}"
     feats = {"method": m, "iface": cfg["iface"], "mode": cfg.get("mode"), "batch": B is not None, "post": cfg["post"], "dvjp": cfg["dvjp"],
              "goe": cfg["goe"], "jac": cfg.get("jac")}
+    _setup_frameworks(cfg["iface"])
     try:
         kind, J = run_jacobian(prog, cfg)
     except Exception as e:  # noqa: BLE001
@@ -431,7 +452,14 @@ def check(spec):
             why = _other_rejection(e, prog, cfg, B)
         if why is not None:
             raise Reject(f"{m}: {why}"[:80]) from None
+        if not fresh.confirm(ID, spec, ("exc", type(e).__name__, str(e)[:60])):
+            raise Reject("exception not reproduced in a fresh process (state left by an earlier case)") from None
         raise
+
+    def viol(clause, detail, vsig):
+        if not fresh.confirm(ID, spec, (clause, vsig)):
+            raise Reject("violation not reproduced in a fresh process (state left by an earlier case)")
+        return Viol(clause, detail, sig=vsig, features=feats)
     slices = hybrid.arg_slices(prog)
     ashapes = [tuple(a["shape"]) for a in prog["args"]]
     shapes = out_shapes(prog)
@@ -439,35 +467,35 @@ def check(spec):
     # structure -> dense (n_out, n_x)
     if kind == "stack":
         if len(J) != len(ashapes):
-            raise Viol("structure", f"{len(J)} Jacobians for {len(ashapes)} arguments", sig=sig + ":structure", features=feats)
+            raise viol("structure", f"{len(J)} Jacobians for {len(ashapes)} arguments", sig + ":structure")
         cols = []
         for j, ash in zip(J, ashapes):
             j = np.asarray(j)
             if j.shape != (sum(sizes),) + ash:
-                raise Viol("shape", f"jacobian shape {j.shape}, expected {(sum(sizes),) + ash}", sig=sig + ":shape", features=feats)
+                raise viol("shape", f"jacobian shape {j.shape}, expected {(sum(sizes),) + ash}", sig + ":shape")
             cols.append(j.reshape(sum(sizes), -1))
         got = np.concatenate(cols, axis=1)
     else:
         if len(J) != len(shapes):
-            raise Viol("structure", f"{len(J)} measurement rows for {len(shapes)} measurements", sig=sig + ":structure", features=feats)
+            raise viol("structure", f"{len(J)} measurement rows for {len(shapes)} measurements", sig + ":structure")
         rows = []
         for row, shp, sz in zip(J, shapes, sizes):
             if len(row) != len(ashapes):
-                raise Viol("structure", f"{len(row)} Jacobians for {len(ashapes)} arguments", sig=sig + ":structure", features=feats)
+                raise viol("structure", f"{len(row)} Jacobians for {len(ashapes)} arguments", sig + ":structure")
             cols = []
             for j, ash in zip(row, ashapes):
                 j = np.asarray(j)
                 if j.shape != shp + ash:
-                    raise Viol("shape", f"jacobian shape {j.shape}, expected {shp + ash}", sig=sig + ":shape", features=feats)
+                    raise viol("shape", f"jacobian shape {j.shape}, expected {shp + ash}", sig + ":shape")
                 cols.append(j.reshape(sz, -1))
             rows.append(np.concatenate(cols, axis=1))
         got = np.concatenate(rows, axis=0)
     if np.iscomplexobj(got):
         if np.abs(got.imag).max() > 1e-9:
-            raise Viol("complex-jacobian", f"imaginary part {np.abs(got.imag).max():.2e}", sig=sig + ":complex", features=feats)
+            raise viol("complex-jacobian", f"imaginary part {np.abs(got.imag).max():.2e}", sig + ":complex")
         got = got.real
     if not np.all(np.isfinite(got)):
-        raise Viol("value", f"non-finite Jacobian {got.tolist()}", sig=sig + ":nan", features=feats)
+        raise viol("value", f"non-finite Jacobian {got.tolist()}", sig + ":nan")
     scale = max(1.0, float(np.abs(Jref).max()))
     if m == "finite-diff":
         tol = fd_tolerance(prog, cfg["gk"])
@@ -480,9 +508,8 @@ def check(spec):
     bad = np.abs(got - Jref) > tol + 10 * err
     if bad.any():
         i = np.unravel_index(np.argmax(np.abs(got - Jref) - tol), Jref.shape)
-        raise Viol("value", f"{sig} gk={cfg['gk']} goe={cfg['goe']} dvjp={cfg['dvjp']} post={cfg['post']} jac={cfg.get('jac')}: d out[{i[0]}]/d x[{i[1]}] = "
-                            f"{got[i]:.9g}, reference {Jref[i]:.9g} (tol {float(np.asarray(tol)[i]):.2e}); got={np.round(got, 6).tolist()} ref={np.round(Jref, 6).tolist()}",
-                   sig=sig, features=feats)
+        raise viol("value", f"{sig} gk={cfg['gk']} goe={cfg['goe']} dvjp={cfg['dvjp']} post={cfg['post']} jac={cfg.get('jac')}: d out[{i[0]}]/d x[{i[1]}] = "
+                            f"{got[i]:.9g}, reference {Jref[i]:.9g} (tol {float(np.asarray(tol)[i]):.2e}); got={np.round(got, 6).tolist()} ref={np.round(Jref, 6).tolist()}", sig)
     labels = [f"iface:{cfg['iface']}", f"method:{m}" + (f":{cfg['mode']}" if m == "hadamard" else ""), f"post:{cfg['post']}",
               f"goe:{cfg['goe']}", f"dvjp:{cfg['dvjp']}"]
     if cfg.get("jac") == "fwd":
